@@ -236,6 +236,21 @@ pub fn run(args: &Args) -> i32 {
     // dial, waiting on another request's dial, handshaking, exchange in flight) and then requires a fresh
     // probe request per origin to complete from every quiescent state.
     std::panic::set_hook(Box::new(|_| {}));
+    // Part 3: the composition itself — real client with a 1 s request timeout, real server, paused
+    // virtual time under the deterministic executor; the clock is moved past the deadline at every
+    // scheduling point (one kind of deviation); a follow-up request must then succeed.
+    let (e2e_n, e2e_d, e2e_v, e2e_mach) = crate::schedmc::c19e2e::run_all(args.tier.is_thorough());
+    for (sig, what, rp) in e2e_v {
+        run.violation(sig, what, rp);
+    }
+    run.cov("part3_timeout_over_pool_schedules", e2e_n);
+    run.cov("part3_distinct_traces", e2e_d);
+    if let Some(m) = e2e_mach {
+        let _ = std::panic::take_hook();
+        println!("MACHINERY-ERROR {m}");
+        let _ = run.finish();
+        return 2;
+    }
     let err = crate::poolmc::run_into(&mut run, "C19", args.tier.is_thorough());
     let _ = std::panic::take_hook();
     if let Some(m) = err {
